@@ -13,7 +13,7 @@ RULE = ("scope-aware random programs of the core language (every binder kind, sh
         "definition wiring); (ii) output streams (first 64 items + terminator) implementation == model interpreter; "
         "non-trivial = distinct non-empty output stream")
 PARTIAL = ["compile_correct / compile_defs (named semantics vs compiled machine) are proved for the binding core, paths, folds, "
-           "label/break and definitions with variable and filter parameters (closures); objects, strings and destructuring "
+           "label/break, definitions with variable and filter parameters (closures), objects and strings; formats, update operators and destructuring "
            "patterns are covered by the correspondence of tables and streams only"]
 ASSUMPTIONS = ["the model interpreter (Core/Run.v) is the formal reading of the manual's left-to-right semantics",
                "tail-call optimisation is invisible (call types ignored here, compared in C04)"]
